@@ -15,11 +15,11 @@ import (
 	"sync"
 	"time"
 
+	"github.com/pingcap/log"
 	"github.com/tikv/pd/pkg/typeutil"
 	"github.com/tikv/pd/server/config"
 	"github.com/tikv/pd/server/member"
 	"github.com/tikv/pd/server/tso"
-	"github.com/pingcap/log"
 	"go.etcd.io/etcd/clientv3"
 	"go.uber.org/zap"
 	"go.uber.org/zap/zapcore"
@@ -117,16 +117,21 @@ type mem struct {
 }
 
 type world struct {
-	e        *etcdx.Etcd
-	admin    *clientv3.Client
-	root     string
-	mems     []*mem
-	ambig    bool // a clock reading that could not be recovered lies too close to a decision threshold
-	panicked string
+	e         *etcdx.Etcd
+	admin     *clientv3.Client
+	root      string
+	mems      []*mem
+	newClient func() (*clientv3.Client, *etcdx.CtlKV, error) // nil: e.NewClient
+	ambig     bool                                           // a clock reading that could not be recovered lies too close to a decision threshold
+	panicked  string
 }
 
 func (w *world) newMember(i int) *mem {
-	cli, ctl, err := w.e.NewClient()
+	nc := w.e.NewClient
+	if w.newClient != nil {
+		nc = w.newClient
+	}
+	cli, ctl, err := nc()
 	if err != nil {
 		panic(err)
 	}
@@ -889,6 +894,90 @@ func overflowRace(e *etcdx.Etcd, admin *clientv3.Client, root string, R *res.Res
 	}
 }
 
+// lateKeepAliveProbe: leader A's keep-alive renewal reaches etcd but its response is delivered 2.6 s late and no later
+// renewal gets through; etcd lets the 3 s lease run out (counted from when it processed the renewal), member B wins the
+// leadership, synchronises and answers a request. A request that reaches A afterwards must be refused or answered with
+// a larger timestamp: A has to count its lease from the moment it REQUESTED the renewal.
+func lateKeepAliveProbe(R *res.Result, prop string) {
+	e, err := etcdx.StartOpt(50, 500)
+	if err != nil {
+		R.Notes = append(R.Notes, "late-keep-alive probe skipped: "+err.Error())
+		return
+	}
+	defer e.Close()
+	admin, _, err := e.NewClient()
+	if err != nil {
+		return
+	}
+	w := &world{e: e, admin: admin, root: "/c01/lease"}
+	var keep *etcdx.KeepCtl
+	w.newClient = func() (*clientv3.Client, *etcdx.CtlKV, error) {
+		cli, ctl, k, err := e.NewClientKeep()
+		keep = k
+		return cli, ctl, err
+	}
+	a := w.newMember(0)
+	ka := keep
+	b := w.newMember(1)
+	if err := a.m.CampaignLeader(3); err != nil {
+		return
+	}
+	if err := a.alloc.Initialize(0); err != nil {
+		return
+	}
+	defer a.am.ResetAllocatorGroup(tso.GlobalDCLocation)
+	defer b.am.ResetAllocatorGroup(tso.GlobalDCLocation)
+	if _, err := a.alloc.GenerateTSO(1); err != nil {
+		return
+	}
+	ka.Hold()
+	kctx, kcancel := context.WithCancel(context.Background())
+	defer kcancel()
+	go a.m.KeepLeader(kctx)
+	select {
+	case <-ka.Held():
+	case <-time.After(10 * time.Second):
+		R.Notes = append(R.Notes, "late-keep-alive probe: no keep-alive response seen")
+		return
+	}
+	tr := time.Now() // etcd has extended the lease to (about) tr + 3 s
+	time.Sleep(2600 * time.Millisecond)
+	ka.Release()
+	// wait until etcd has dropped A's leader record
+	deadline := time.Now().Add(20 * time.Second)
+	for {
+		ctx, cancel := context.WithTimeout(context.Background(), 5*time.Second)
+		r, err := admin.Get(ctx, a.m.GetLeaderPath())
+		cancel()
+		if err == nil && len(r.Kvs) == 0 {
+			break
+		}
+		if time.Now().After(deadline) {
+			R.Notes = append(R.Notes, "late-keep-alive probe: the leader record never went away")
+			return
+		}
+		time.Sleep(20 * time.Millisecond)
+	}
+	if err := b.m.CampaignLeader(60); err != nil {
+		R.Notes = append(R.Notes, "late-keep-alive probe: second member did not win: "+err.Error())
+		return
+	}
+	if err := b.alloc.Initialize(0); err != nil {
+		return
+	}
+	tb, err := b.alloc.GenerateTSO(1)
+	if err != nil {
+		return
+	}
+	R.Count("late-keep-alive:probed")
+	ta, erra := a.alloc.GenerateTSO(1)
+	if erra == nil && (ta.Physical < tb.Physical || (ta.Physical == tb.Physical && ta.Logical <= tb.Logical)) {
+		R.Violate(prop+":later-request-got-smaller-timestamp:old-leader-serving-after-etcd-expired-its-lease",
+			fmt.Sprintf("leader 0 renewed its 3 s lease, the response arrived 2.6 s late and no later renewal got through; %.2f s after the renewal etcd had dropped its leader record, member 1 won, synchronised and answered (%d,%d); a request to member 0 that began afterwards was answered (%d,%d)", time.Since(tr).Seconds(), tb.Physical, tb.Logical, ta.Physical, ta.Logical),
+			map[string]interface{}{"new_leader_answer": []int64{tb.Physical, tb.Logical}, "old_leader_answer": []int64{ta.Physical, ta.Logical}, "scenario": "Campaign(0, ttl 3 s); keep-alive response held 2.6 s, later renewals lost; lease expires on etcd; Campaign(1); Initialize(1); GenerateTSO(1); GenerateTSO(0)"})
+	}
+}
+
 // raceReset: a reset into the current millisecond whose check-to-write span is stretched by a parked window save, while
 // requests keep arriving. With the TSO lock held over the whole reset the requests simply wait; if the reset validates and
 // writes under different lock sections, its write lands on top of timestamps granted in between. Checked on the Go side:
@@ -1052,6 +1141,79 @@ func serverPhase(R *res.Result, prop string, dur time.Duration) {
 	R.CountN("server:answers", len(all))
 }
 
+// localBurstProbe: a real server with Local TSO (one dc-location, suffix width 1): bursts of 40000 timestamps are
+// requested from the Local allocator inside one physical tick. Every answer's logical part (suffix included) must fit
+// the 18-bit field, and the composed 64-bit values must keep increasing; the allocator may refuse instead.
+func localBurstProbe(R *res.Result, prop string) {
+	cfg, err := srv15.Config()
+	if err != nil {
+		return
+	}
+	cfg.EnableLocalTSO = true
+	cfg.Labels = map[string]string{config.ZoneLabel: "dc-1"}
+	cfg.TSOUpdatePhysicalInterval = typeutil.NewDuration(10 * time.Second)
+	x, err := srv15.StartWith(cfg)
+	if err != nil {
+		R.Notes = append(R.Notes, "local burst probe skipped: "+err.Error())
+		return
+	}
+	defer x.Close()
+	am := x.S.GetTSOAllocatorManager()
+	deadline := time.Now().Add(30 * time.Second)
+	for {
+		am.ClusterDCLocationChecker()
+		a, err := am.GetAllocator("dc-1")
+		if err == nil && a.IsInitialize() && a.(*tso.LocalTSOAllocator).IsAllocatorLeader() {
+			break
+		}
+		if time.Now().After(deadline) {
+			R.Notes = append(R.Notes, "local burst probe skipped: the Local allocator of dc-1 never served")
+			return
+		}
+		time.Sleep(50 * time.Millisecond)
+	}
+	var last uint64
+	for k := 0; k < 5; k++ {
+		t, err := am.HandleTSORequest("dc-1", 40000)
+		if err != nil {
+			R.Count("local-burst:refused")
+			continue
+		}
+		R.Count("local-burst:answered")
+		first := t.Logical - int64(40000-1)<<t.SuffixBits
+		if t.Logical >= 1<<18 || first < 0 {
+			R.Violate(prop+":logical-does-not-fit-18-bits:local-allocator-burst",
+				fmt.Sprintf("request %d of 40000 timestamps from the Local allocator of dc-1 (suffix width %d) was answered (physical %d, logical %d): the logical part does not fit its 18-bit field, the composed value runs into the physical part", k+1, t.SuffixBits, t.Physical, t.Logical),
+				map[string]interface{}{"physical": t.Physical, "logical": t.Logical, "suffix_bits": t.SuffixBits, "request": k + 1, "count": 40000})
+			return
+		}
+		lo := uint64(t.Physical)<<18 + uint64(first)
+		if lo <= last {
+			R.Violate(prop+":composed-timestamp-went-back:local-allocator-burst",
+				fmt.Sprintf("request %d: first composed value %d is not above the last value %d of the request before", k+1, lo, last),
+				map[string]interface{}{"physical": t.Physical, "logical": t.Logical, "suffix_bits": t.SuffixBits, "request": k + 1})
+			return
+		}
+		last = uint64(t.Physical)<<18 + uint64(t.Logical)
+	}
+}
+
+// prefill writes 1100 keys that sort before "timestamp" under root (stores, regions, rules of a populated cluster).
+func prefill(admin *clientv3.Client, root string) {
+	for base := 0; base < 1100; base += 100 {
+		ops := make([]clientv3.Op, 0, 100)
+		for k := base; k < base+100; k++ {
+			ops = append(ops, clientv3.OpPut(fmt.Sprintf("%s/raft/s/%020d", root, k), "x"))
+		}
+		ctx, cancel := context.WithTimeout(context.Background(), 10*time.Second)
+		_, err := admin.Txn(ctx).Then(ops...).Commit()
+		cancel()
+		if err != nil {
+			panic(err)
+		}
+	}
+}
+
 type job struct {
 	idx   int
 	fixed []op
@@ -1140,7 +1302,11 @@ func main() {
 				panic(err)
 			}
 			for j := range ch {
-				c, ok, pan := runCase(e, admin, fmt.Sprintf("/c01/%d", j.idx), master.Fork(uint64(j.idx-nfixed)), j.fixed, 40)
+				root := fmt.Sprintf("/c01/%d/r", j.idx)
+				if j.idx%5 == 2 {
+					prefill(admin, root) // a populated cluster: more than a thousand keys of other kinds under the root path
+				}
+				c, ok, pan := runCase(e, admin, root, master.Fork(uint64(j.idx-nfixed)), j.fixed, 40)
 				if pan != "" {
 					vmu.Lock()
 					R.Violate(*prop+":implementation-panicked", "a call of the real TSO code panicked: "+pan, map[string]interface{}{"ops": c.Ops, "obs": c.Obs})
@@ -1167,6 +1333,8 @@ func main() {
 			}
 			e.Close()
 		}
+		lateKeepAliveProbe(R, *prop)
+		localBurstProbe(R, *prop)
 		serverPhase(R, *prop, time.Duration(*serverMs)*time.Millisecond)
 	}
 
